@@ -33,6 +33,8 @@ const (
 	c39ShortTimeout = 3 * time.Second
 )
 
+const c39KeyD9 = "D9-nil-after-save-failure"
+
 var errC39Injected = errors.New("injected storage failure")
 var errC39Dead = errors.New("instance was abandoned")
 
@@ -859,6 +861,11 @@ func TestVerif_C39_PoolHistory(t *testing.T) {
 			// at, so the draw sequence never depends on goroutine timing
 			op := c39DrawOp(t)
 			inst := m.cur
+			if (op.kind == "gen-fail" || op.kind == "gen-fail-applied") && verifkit.Known(c39KeyD9) {
+				// open known finding: steer around it so the search continues
+				st.Excluded(c39KeyD9)
+				op.kind = "gen"
+			}
 			if inst.paused && op.kind != "restart" && !strings.HasPrefix(op.kind, "get") {
 				// generation is stopped: resume it first
 				m.resume()
